@@ -13,10 +13,15 @@ Every statement is evaluated twice — right after it was built and again, every
 final value is the one judged against NumPy); dims / coordinates / value that differ between the two are a violation of their own
 (`changed-after-build`: value of statement k changed after statement m was built). The actions of the previous program are kept and
 evaluated once more after the next program was built (`changed-by-later-program`: state that outlives a program; the replay holds both).
+Batching, without reference value (second audit): every statement of the batchable class (sum/prod/min/max/mean/std, concatenate, a user
+function marked batchable) that was given a batch size is built once more with batch_size=0 on the same real operands:
+`batching-changes-build` (one raises, the other builds), `batching-changes-value` (dims / labels / values differ).
 Translator: which backend functions carry @batchable is read from backends/__init__.py (Gen/FluentMarks.lean).
 """
 import glob
 import json
+
+import numpy as np
 
 PROPERTY = "C13"
 LEVEL_TEXT = ("Lean theorems over Model/Fluent.lean (node arrays as dims + position -> unfolded expression). c13_denotation: an independent "
@@ -25,12 +30,23 @@ LEVEL_TEXT = ("Lean theorems over Model/Fluent.lean (node arrays as dims + posit
               "over programs built from map (one payload or an array of payloads, yields), reduce and the named reductions, mean/std, "
               "stack/concatenate/flatten, select/iselect (values, lists, several criteria), expand (index, name or Coord, backend kwargs), "
               "broadcast (exclude), join (existing/new dimension, different dimensions, match_coord_values), arithmetic with numbers and between "
-              "actions of equal or different dimensions, transform (function given as a program over the receiver): if the construction succeeds, "
-              "the node array has exactly the dims / coordinate labels / scalar coordinates of the denotation and the node at EVERY position evaluates "
-              "to the denotation's value — for every interpretation of the payload functions satisfying three laws (trivial = identity, mean = sum/n, "
+              "actions of equal or different dimensions, transform (function given as a program over the receiver): IF the construction succeeds, "
+              "the node at EVERY position evaluates to the denotation's value and the node array has the dims / coordinate labels / scalar coordinates "
+              "of the denotation (for join, broadcast and arithmetic between actions the denotation takes its dims / labels / scalars from the same shape "
+              "functions the build uses — that conjunct is definitional there and is carried by the tie and the NumPy oracle; the value conjunct is the "
+              "content) — for every interpretation of the payload functions satisfying three laws (trivial = identity, mean = sum/n, "
               "std = pow(sum(x^2)/n - (sum(x)/n)^2, 1/2)), proved of the exact rational interpretation with unknown functions as an explicit opaque symbol "
-              "(c13_laws_rat); c13_batch_invariant_prog: a program and the same program with all batch sizes 0 have the same dims/coords and the same value "
-              "at every position; c13_batch_invariant / c13_batch_terminates for one reduce of any size; direct statements for the derived operations "
+              "(c13_laws_rat; c13_laws_rat_pow / c13_pow_nat / c13_pow_neg: also with integer exponents of pow interpreted exactly), and for every class "
+              "Bat of payloads whose marked-batchable members denote batchable functions (hypothesis Batchable; the only closed instance proved here is "
+              "sum without arguments, i.e. programs over sum / mean / std — min, max, prod, concat rest on the hypothesis, discharged per backend function by C15); "
+              "c13_batch_invariant_prog: IF a program and the same program with all batch sizes 0 BOTH build, they have the same dims/coords and the same value "
+              "at every position (it does not exclude that only the batched one raises); that is excluded for ONE reduction of any size, with or without "
+              "keep_dim, by c13_batch_total (payload marked batchable), c13_batch_total_named (sum, prod, min, max), c13_batch_total_concat, c13_batch_total_mean (the "
+              "rewrite sum/n) and, with the dimension omitted, c13_batch_total_named_default (through c13_default_dim: dim='' IS the first dimension): if the "
+              "unbatched call builds, every batch size builds, with the same dims/coords — not proved for the batched std, and no program-level totality theorem: for whole "
+              "programs 'the batched build raises while the unbatched one builds' is reported by the tie (batching-changes-build); "
+              "c13_batch_invariant / c13_batch_terminates for one reduce of any size (named dimension; the default dimension dim='' is resolved by "
+              "defaultDim in the model and compared by the tie); direct statements for the derived operations "
               "(c13_value_transform: position i along the new dimension IS the function's result for parameter i; c13_value_expand, _flatten, "
               "_select_many, _join_match, _arith, _combine). Unbounded in array shape, dimension size, batch size and program depth; tied to the real fluent "
               "API by a structural correspondence check on unfolded graphs. The clauses 'map / iselect / broadcast / join put node k at position k' are "
@@ -42,9 +58,18 @@ LEVEL_NOTE = ("modelled, not verified: fluent.py Action.{map (payload or array o
               "mirrored by hand for the cases the generator reaches (others are reported as out of scope and counted); float rounding is outside (exact "
               "Fractions; tolerance only for programs containing std or running on xarray DataArrays, stated in the evidence); batchability of the payload "
               "FUNCTIONS is a hypothesis (Batchable; C15 proves it per backend function); reductions over a dimension of size 1 are outside the property's "
-              "quantifier; mixed value types within one program (backend dispatch looks at the first argument only) are outside")
+              "quantifier (the laws mean = sum/n and std speak about the several-arrays overload of the backend functions; one array with axis=k is a different "
+              "overload that batching never produces); mixed value types within one program (backend dispatch looks at the first argument only) are outside; "
+              "the ORDER of the dimensions after broadcast, join on a new dimension and arithmetic between actions of different dimensions is not documented: "
+              "the oracle judges the set of dimensions (and adopts the order the code chose for what follows), the order is compared by the tie only; "
+              "statements computed from a statement reported as changed, from an accepted float nan, or that the model reports out of scope are not judged "
+              "(counted: unjudged:*, model_out_of_scope); number statics: the model has rationals, the tie writes an integral float as '2.0' (never equal to "
+              "the model's '2'), so a float where the code's rewrites or the program wrote an int is a disagreement, and the generator never writes an "
+              "integral float itself; values on float32 / int inputs: the oracle requires NumPy's value within tolerance; the dtype is judged on double-precision "
+              "inputs only (a float narrower than float64 is value-precision: a downcast inside the graph) — on float32 / integer inputs the nodes of one action "
+              "may legitimately carry narrower types than the one array NumPy stacks them into, a wrong integer computation shows in the values")
 TECHNIQUE = "Lean 4 proof (denotational semantics of programs, induction over programs and over the batching recursion) over an executable model + structural differential correspondence of unfolded graphs + NumPy oracle on both backends"
-LEAN_PROPS = ["EkwVerif.Props.C13", "EkwVerif.Props.C13Den"]
+LEAN_PROPS = ["EkwVerif.Props.C13", "EkwVerif.Props.C13Den", "EkwVerif.Props.C13Tot"]
 LEAN_DRIVERS = ["C13"]
 RULE = ("random fluent programs: 1-3 sources (1-3 dims, sizes 1-7, int/str labels), internal shapes scalar..3-D, values exact Fractions or (30%) xarray "
         "DataArrays with named internal dims (xarray backend); chains of depth <= 4 (thorough <= 6) over named reductions (batch sizes 0..size+2, "
@@ -56,13 +81,26 @@ RULE = ("random fluent programs: 1-3 sources (1-3 dims, sizes 1-7, int/str label
         "the same operation twice with different backend arguments (two stack / concatenate calls with different axes, two reductions with different "
         "backend_kwargs incl. keepdims; the first mostly with the method's default backend_kwargs; chained or side by side; ~9% of the operations + "
         "directed programs, two of them consecutive single-stack programs), "
-        "8% of the statements through a.default.<op> / a.<registered subclass>.<op>; ~8% deliberately invalid arguments. non-trivial = program with >= 1 "
+        "8% of the statements through a.default.<op> / a.<registered subclass>.<op>; ~8% deliberately invalid arguments. Second audit: the reduced "
+        "dimension is OMITTED (a.mean(), a.sum(batch_size=2), a.reduce(f), a.flatten(); now and then dim='') in ~22% of the named reductions, ~20% of "
+        "reduce / flatten and in the family defaultdim (receiver with >= 2 dimensions, first of size >= 2) — counted as feature:dim-omitted:*; "
+        "a.power(k) with k from {0, 1, 2, 3, 4, -1} (exact) and 0.5 (float values only) — feature:pow-exponent:*; ~7% of the programs have one long "
+        "dimension (8-12) that is first reduced in batches of 2 or 3 (2-4 rounds of the batching loop; feature:batching-rounds:*); 30% of the xarray "
+        "programs and 6% of the others run on float32 / int64 / int32 inputs (programs_input_dtype:*); directed programs for each of these. "
+        "FIXED in the generator (not varied): arithmetic scalars come from {2, 3, -1, 5}, affine constants from {2, 3, -1}, transform multipliers "
+        "from {2, 3, -1}; no integral float (2.0), bool, None or array is ever passed as a number; labels are ints or strings (tens / 5+3j / letters), "
+        "never floats or repeated within a source; at most 3 node dimensions and 48 positions per source; internal shapes from a list of 11 "
+        "(scalar .. 3-D, sizes <= 5); batch sizes 0 .. size+2; stack / concatenate / select / expand / join always name their dimension (they have no "
+        "default); backend kwargs only axis / keepdims / dim / mode / method / missing_dims. non-trivial = program with >= 1 "
         "statement that succeeds and is not a source; distinct by content hash")
 ASSUMPTIONS = [
     "source payloads are functools.partial(srcfn, id); the interpreter supplies their values: every element of every source distinct, 32 random low bits (a mis-wired node is seen)",
     "the label keep_dim gives the kept dimension is undocumented: the oracle does not judge it, the tie compares it (first and last label of the reduced dimension, read back from the text the code builds)",
     "Batchable: a payload marked batchable denotes a batchable function (hypothesis of c13_denotation / c13_batch_invariant*; discharged per backend function by C15)",
     "programs introduce no dimension named batch.<n>.<x> or **datatype** (names the implementation reserves; hypothesis Prog.WF)",
+    "the default of an omitted reduced dimension is the FIRST dimension of the node array (signature default dim=''; the docstrings name no default: the oracle holds the pinned convention, a change of it is reported)",
+    "Laws.mean / Laws.std are stated for every argument list; of the real backends they hold for the several-arrays overload (>= 2 arrays), which is all that reduce over a dimension of size >= 2 and batching (singleton chunks are passed through, not reduced) ever produce",
+    "integer inputs: NumPy's integer arithmetic wraps identically in the graph and in the direct computation; the batched std on int32 inputs squares in int32 (known finding C13-batched-std-int32-overflow)",
 ]
 
 
@@ -199,6 +237,37 @@ def _directed():
                           red(0, "min", "d0", [["axis", 1], ["keepdims", 1]])], "internal": [2, 4], "vseed": 18, "float": False})
     out.append({"stmts": [S2, red(0, "sum", "d0", [])], "internal": [3], "vseed": 19, "float": False})
     out.append({"stmts": [S2, red(0, "sum", "d0", [["keepdims", 1]]), red(0, "max", "d1", [["axis", 1]])], "internal": [3], "vseed": 20, "float": False})
+    # second audit: the reduced dimension OMITTED on a 2-D node array (default = the first dimension), batched and not, both backends
+    T3 = {"op": "source", "dims": [["d0", [0, 10, 20, 30, 40]], ["d1", ["a", "b", "c"]]], "base": 0}
+    nod = lambda nm, bs=0, keep=False: {"op": "named", "a": 0, "name": nm, "dim": None, "bs": bs, "keep": keep, "kw": []}  # noqa: E731
+    out.append({"stmts": [T3, nod("mean"), nod("mean", 2), nod("sum"), nod("sum", 2, True), nod("prod"), nod("min", 3), nod("max"),
+                          {"op": "reduce", "a": 0, "fn": "first", "dim": None, "bs": 2, "keep": False},
+                          {"op": "reduce", "a": 0, "fn": "wsum", "dim": None, "bs": 0, "keep": False},
+                          {"op": "flatten", "a": 0, "dim": None, "axis": 0}], "internal": [2], "vseed": 21, "float": False})
+    out.append({"stmts": [T3, nod("std"), nod("std", 2), nod("std", 2, True), nod("mean", 2, True)], "internal": [2], "vseed": 22, "float": True})
+    out.append({"stmts": [T3, nod("mean"), nod("std", 2), nod("max", 2), {"op": "flatten", "a": 0, "dim": None, "axis": 1, "kw": [["dim", "s1"]]}],
+                "internal": [2, 3], "vseed": 23, "float": False, "xr": True})
+    # a.power(k) with the exponents 0, 1, 3, 4, -1 (exact) and 0.5 (floats), on both backends
+    pw = lambda a, e: {"op": "arith", "a": a, "fn": "pow", "scalar": e}  # noqa: E731
+    out.append({"stmts": [S2, pw(0, 0), pw(0, 1), pw(0, 3), pw(0, 4), pw(0, -1), pw(3, 3), pw(5, 2)], "internal": [2], "vseed": 24, "float": False})
+    out.append({"stmts": [S2, pw(0, 2), pw(1, 0.5), pw(0, 3), pw(0, -1), pw(0, 4)], "internal": [2], "vseed": 25, "float": True})
+    out.append({"stmts": [S2, pw(0, 3), pw(0, 0.5), pw(0, -1), pw(0, 0)], "internal": [2, 2], "vseed": 26, "float": False, "xr": True})
+    # a long dimension reduced in small batches: the batching loop of reduce runs three and four times
+    L12 = {"op": "source", "dims": [["d0", [10 * j for j in range(12)]], ["d1", ["a", "b"]]], "base": 0}
+    L9 = {"op": "source", "dims": [["d1", ["a", "b"]], ["d0", [5 + 3 * j for j in range(9)]]], "base": 0}
+    nd_ = lambda nm, d, bs, keep=False: {"op": "named", "a": 0, "name": nm, "dim": d, "bs": bs, "keep": keep, "kw": []}  # noqa: E731
+    out.append({"stmts": [L12, nd_("sum", "d0", 2), nd_("mean", "d0", 2, True), nd_("max", "d0", 3), nd_("prod", None, 2),
+                          {"op": "reduce", "a": 0, "fn": "first", "dim": "d0", "bs": 2, "keep": False},
+                          {"op": "concatenate", "a": 0, "dim": "d0", "bs": 2, "keep": False}], "internal": [2], "vseed": 27, "float": False})
+    out.append({"stmts": [L9, nd_("std", "d0", 2), nd_("min", "d0", 2, True), nd_("sum", "d0", 4)], "internal": [3], "vseed": 28, "float": True})
+    # single-precision and integer inputs on both backends (the value's precision must not be below NumPy's)
+    for dt, xr_ in (("float32", True), ("float32", False), ("int64", True), ("int32", False)):
+        out.append(dict({"stmts": [S2, nd_("sum", "d0", 2), nd_("mean", "d1", 0), dict(stk(0, "d0", 0), **({"kw": [["dim", "s1"]]} if xr_ else {})),
+                                   pw(0, 2), {"op": "arith", "a": 0, "fn": "divide", "scalar": 3}, {"op": "arith", "a": 0, "fn": "multiply", "b": 0}],
+                         "internal": [2, 2], "vseed": 29, "float": True, "dtype": dt}, **({"xr": True} if xr_ else {})))
+    # proposed known finding C13-batched-std-int32-overflow: the batched std squares the inputs in their own integer type
+    out.append({"stmts": [{"op": "source", "dims": [["d0", [10 * j for j in range(60)]]], "base": 0}, nd_("std", "d0", 2), nd_("std", "d0", 0)],
+                "internal": [2], "vseed": 30, "float": True, "dtype": "int32"})
     return out
 
 
@@ -206,8 +275,27 @@ CHANGED ="changed-after-build"             # a LATER STATEMENT of the same progr
 CHANGED_LATER = "changed-by-later-program"  # building ANOTHER program changed what a retained action denotes
 
 
-def _signature(kind, st, by=None):
+def _cause(prog, k, kind):
+    """mechanism probe for programs on NARROW INTEGER inputs (int32): the same program on int64 inputs — if the failure of
+    statement k is gone there, it is an overflow of the narrow integer type inside the graph (the direct NumPy computation converts
+    to float64 first); anything else keeps no cause and is never absorbed by that known finding"""
+    if prog.get("dtype") != "int32":
+        return None
+    try:
+        wide = dict(prog, dtype="int64")
+        if not any(v[0] == k and v[1] == kind for v in check_program(wide)[2]):
+            return "int32-overflow"
+    except Exception:
+        pass
+    return None
+
+
+def _signature(kind, st, by=None, cause=None):
     sig = {"kind": kind, "op": st["op"]}
+    if cause:
+        sig["cause"] = cause
+    if st.get("dim", "") is None:
+        sig["dim_omitted"] = True
     if st["op"] == "named":
         sig["name"] = st["name"]
     if "bs" in st:
@@ -278,6 +366,77 @@ def _first_changer(prog, k):
     return found[0] if found else None
 
 
+BATCH_BUILD = "batching-changes-build"      # the batched build raises while the unbatched one builds (or the other way round)
+BATCH_VALUE = "batching-changes-value"      # both build, the values differ
+
+
+def _batch_class(st):
+    """is the statement in the class the property's last sentence speaks about — a BATCHABLE reduction (sum, prod, min, max,
+    concatenate, a user function marked batchable) or mean / std — with a batch size given? (written from the property text and the
+    documentation of reduce: a function that is not batchable, or a generator, with a batch size is refused by a documented ValueError)"""
+    if not st.get("bs"):
+        return False
+    if st["op"] == "named":
+        return st["name"] in ("sum", "prod", "min", "max", "mean", "std")
+    if st["op"] == "reduce":
+        return st["fn"] == "first" and not st.get("yields")
+    return st["op"] == "concatenate"
+
+
+def batching_oracle(prog, k, real, interp):
+    """Metamorphic, needs no reference value: statement k (of the class above) is built once more with batch_size=0 on the SAME
+    real operands. Building must succeed for both or fail for both, with the same dims / labels; the values must be equal (exact
+    on Fractions; float tolerance otherwise). Returns None or (kind, text)."""
+    from ekw import c13_fluent as F
+    st = prog["stmts"][k]
+    if not _batch_class(st) or (isinstance(real[k], tuple) and real[k][0] == "skip"):
+        return None
+    try:
+        plain = F.exec_stmt(dict(st, bs=0), real)
+    except Exception as e:
+        plain = ("err", F.err_class(e), f"{type(e).__name__}: {str(e)[:120]}")
+    r = real[k]
+    if isinstance(r, tuple) != isinstance(plain, tuple):
+        if isinstance(r, tuple):
+            return (BATCH_BUILD, f"statement {k} {st} raised {r[2]} while the same statement with batch_size=0 builds")
+        return (BATCH_BUILD, f"statement {k} {st} builds while the same statement with batch_size=0 raised {plain[2]}")
+    if isinstance(r, tuple):
+        return None
+    a, b = F.Snapshot(r, interp), F.Snapshot(plain, F.Interp(prog))
+    if a.dims != b.dims or a.sizes != b.sizes:
+        return (BATCH_VALUE, f"statement {k} {st}: dimensions {list(zip(a.dims, a.sizes))}, with batch_size=0 {list(zip(b.dims, b.sizes))}")
+    for d in a.dims:
+        # the label keep_dim gives the kept dimension is the same text in both; every other label must be equal
+        if a.labels[d] != b.labels[d]:
+            return (BATCH_VALUE, f"statement {k} {st}: coordinate {d} = {a.labels[d]}, with batch_size=0 {b.labels[d]}")
+    if dict(st.get("kw") or []).get("keepdims"):
+        return None     # numpy keepdims=True per batch and again over the batches: the value SHAPE follows the batching (backend argument)
+    if (a.exc is None) != (b.exc is None):
+        return (BATCH_VALUE, f"statement {k} {st}: evaluating gives {'a value' if a.exc is None else repr(a.exc)[:100]}, "
+                f"with batch_size=0 {'a value' if b.exc is None else repr(b.exc)[:100]}")
+    if a.exc is not None:
+        return None
+    if a.inames != b.inames or a.values.shape != b.values.shape:
+        return (BATCH_VALUE, f"statement {k} {st}: value shape {a.values.shape} {a.inames}, with batch_size=0 {b.values.shape} {b.inames}")
+    if a.values.dtype == object or b.values.dtype == object:
+        same = F._same_values(a.values, b.values)
+    else:
+        # float tolerance relative to the magnitude of the OPERAND (as in oracle_stmt): the std rewrite cancels at eps * x^2
+        scale = 1.0
+        try:
+            ov, _ = interp.values(real[st["a"]])
+            if ov.size and ov.dtype != object:
+                scale = max(1.0, float(np.nanmax(np.abs(ov.astype(float)))))
+        except Exception:
+            pass
+        if not np.isfinite(scale):
+            return None
+        same = F._allclose(a.values, b.values, scale, f32=a.values.dtype.itemsize <= 4 or b.values.dtype.itemsize <= 4)
+    if not same:
+        return (BATCH_VALUE, f"statement {k} {st}: the value differs from the value of the same statement with batch_size=0")
+    return None
+
+
 def check_program(prog):
     """oracle on the real code: list of (k, kind, text).
     Every statement is evaluated TWICE: right after it was built (one interpreter that follows the construction) and once more,
@@ -326,6 +485,8 @@ def check_program(prog):
             refs.why[k] = "computed from a value that holds an accepted float nan"
             continue
         v = F.oracle_stmt(prog, k, r, rf, interp, F.float_scale(prog, k, refs))
+        if not v:
+            v = batching_oracle(prog, k, real, interp)
         if v:
             out.append((k, v[0], v[1], None))
         elif (prog.get("float") or prog.get("xr")) and rf is not None and not isinstance(r, tuple) and F.has_nan(interp, r):
@@ -391,7 +552,7 @@ def compare_model(ctx, progs, reals):
     lines = lean_drive("C13", [json.dumps(p) for p in progs])
     for p, real, line in zip(progs, reals, lines):
         model = json.loads(line)
-        unf = F.Unfolder()
+        unf = F.Unfolder(strict=True)
         oos = set()
         ctx.traces += 1
         for k, (st, r, m) in enumerate(zip(p["stmts"], real, model)):
@@ -463,6 +624,9 @@ def correspond(ctx):
                 return any(v[0] == kk and v[1] == kind for v in check_program(q)[2])
             small, kk = _shrink(p, k, failing, also=[m] if m is not None else [])
             txt = next((v[2] for v in check_program(small)[2] if v[0] == kk and v[1] == kind), text)
+            cause = _cause(small, kk, kind)
+            if cause:
+                sig = dict(sig, cause=cause)
             ctx.violation(sig, {"prog": small, "statement": kk}, txt)
             break   # later statements of the same program usually fail for the same reason
         # state that outlives a program: the previous program's actions were kept; now that this program has been built on
@@ -476,13 +640,20 @@ def correspond(ctx):
                     _report_pair(ctx, prev[0], k, p, text)
         prev = (p, real, refs.late) if not viol else None
     compare_model(ctx, progs, reals)
-    ctx.extra["tolerance"] = "exact Fractions; only programs containing std run on floats: rtol 1e-7, atol 1e-6 x magnitude of the operand, and nan accepted where NumPy gives |std| <= 1e-4 x magnitude (cancellation in the rewrite: float rounding is outside the property)"
+    ctx.extra["tolerance"] = ("exact Fractions compared with == (a float among the real values of an exact program is value-inexact); programs containing std or "
+                              "power(0.5), on xarray DataArrays or on float32 / int inputs run on NumPy numbers: rtol 1e-7 (2e-5 when a float32 is involved), atol 1e-6 x "
+                              "magnitude of the operand, nan accepted where NumPy gives |std| <= 1e-4 x magnitude (cancellation in the rewrite: float rounding is outside "
+                              "the property); on double-precision inputs every value must be float64 (value-precision)")
 
 
 def _count_features(ctx, p, real, refs):
     """distribution of the extended vocabulary, and how much of it the oracle judges"""
     if p.get("xr"):
         ctx.count("programs_xarray_values")
+    if p.get("dtype"):
+        ctx.count("programs_input_dtype:" + p["dtype"] + (":xarray" if p.get("xr") else ":numpy"))
+    if p.get("family"):
+        ctx.count("programs_family:" + p["family"])
     ctx.count("internal_shape:" + "x".join(map(str, p["internal"])) if p["internal"] else "internal_shape:scalar")
     for k, st in enumerate(p["stmts"]):
         op = st["op"]
@@ -509,6 +680,23 @@ def _count_features(ctx, p, real, refs):
             f.append("mapn:" + st.get("as", "ndarray"))
         if op == "named" and st.get("keep"):
             f.append("keep_dim")
+        if op in ("named", "reduce", "flatten") and st.get("dim", "") is None:
+            a_ = real[st["a"]]
+            nd = len(a_.nodes.dims) if not isinstance(a_, tuple) else 0
+            f.append("dim-omitted:" + (st.get("name") or op) + (":on>=2dims" if nd >= 2 else ":on-1dim"))
+        if op == "arith" and st.get("fn") == "pow" and "scalar" in st:
+            f.append("pow-exponent:%s" % st["scalar"])
+        if op in ("named", "reduce", "concatenate") and st.get("bs", 0) > 1 and not isinstance(real[st["a"]], tuple):
+            a_ = real[st["a"]].nodes
+            d_ = st["dim"] if st.get("dim") else (str(a_.dims[0]) if a_.dims else None)
+            if d_ in a_.sizes:
+                n_, depth = int(a_.sizes[d_]), 0
+                while st["bs"] < n_:
+                    n_ = -(-n_ // st["bs"])
+                    depth += 1
+                f.append("batching-rounds:%d" % depth)
+                if int(a_.sizes[d_]) >= 8:
+                    f.append("reduced-dimension-size>=8")
         if not isinstance(real[k], tuple):
             for d in real[k].nodes.dims:
                 if d not in real[k].nodes.coords and real[k].nodes.sizes[d] >= 1:
@@ -559,7 +747,8 @@ def search(ctx, why):
             def failing(q, kk, kind=kind):
                 return any(v[0] == kk and v[1] == kind for v in check_program(q)[2])
             small, kk = _shrink(p, k, failing, also=[m] if m is not None else [])
-            ctx.violation(sig, {"prog": small, "statement": kk}, text)
+            cause = _cause(small, kk, kind)
+            ctx.violation(dict(sig, cause=cause) if cause else sig, {"prog": small, "statement": kk}, text)
 
 
 def oracle_only(ctx):
